@@ -245,6 +245,7 @@ const (
 	fFeat = "features"
 	fAnn  = "annotations"
 	fPM   = "pairing_mismatches"
+	fMate = "mate"
 )
 
 // diff compares a live sequence with its model; it returns the fields that differ
